@@ -758,6 +758,9 @@ EXTRA_EXAMPLES = [
     "f();" * 85 + "\ny = 1\n", "x = 1\n" + "f();" * 170 + "\ny = 1\n",
     # nested code objects that differ only in a constant with a colliding hash (hash(-1) == hash(-2))
     "g = [lambda: -1, lambda: -2]\nh = [lambda: (1, -1), lambda: (1, -2)]\n",
+    # an unreferenced cell variable (its only capture was compiled away) next to a free-variable access
+    "def outer(y):\n    def inner(x):\n        if 0:\n            g = lambda: x\n        return y\n    return inner\n",
+    "def outer(y):\n    def inner(x):\n        assert (lambda: x)\n        return y, x\n    return inner\n",
     # dead code kept in the table on the same line as the last live statement
     "def f(a):\n    a = 1\n    return a; a = 2\n",
     # a cell variable whose name is also a free variable (__class__ in a class nested in a method)
@@ -806,7 +809,7 @@ def many_cells_sources():
 def except_list_sweep():
     """`except E as e:` bodies swept so that one member is an exact multiple of 254 bytes on one line,
     directly followed by the compiler's line-less clean-up (3.10)"""
-    return ["try:\n    x\nexcept E as e:\n    [" + "a, " * n + "]\n" for n in range(118, 132)]
+    return ["try:\n    x\nexcept E as e:\n    [" + "a, " * n + "]\n" for n in list(range(118, 132)) + list(range(245, 262))]
 
 
 def example_cases():
